@@ -210,7 +210,8 @@ Definition db_deserialize (E : env) (gt : option (Z * Z)) (m : mon) : res (optio
       | None => Ret None m6
       | Some ws =>
           match decode_locs locs with
-          | None => Ret (Some db_empty) m6        (* "return true" on a refused locator: nothing loaded *)
+          | None => if fix_loc (e_cfg E) then Ret None m6    (* candidate fix C09_3: a refused locator is a failure *)
+                    else Ret (Some db_empty) m6        (* "return true" on a refused locator: nothing loaded *)
           | Some tab =>
               (* candidate fix C09_4: a DbGrid refuses a number of samples that is not the grid size *)
               if fix_grid (e_cfg E) && match gt with Some (_, exact) => negb (nech =? exact) | None => false end then Ret None m6 else
